@@ -19,7 +19,7 @@ import c06
 
 META = {
     'level': 'other',
-    'decides': 'that is_cold == true coincides with a pushed warm-journal entry on every path of load_account and sload, that access-list loading journals nothing, that the warm journal entries re-cool on revert, and the fork gates and ordering of transaction-level pre-warming',
+    'decides': 'that is_cold == true coincides with a pushed warm-journal entry on every path of load_account and sload, that access-list loading journals nothing, that the warm journal entries re-cool on revert, and the fork gates and ordering of transaction-level pre-warming; that the coldness reported for an account and for its EIP-7702 delegate each come from their own load; the price tables that take the cold flag (C14)',
     'does_not_decide': 'the interaction of AccountCreated re-cooling with access lists (a behavioural corner the statement itself flags); prices (C14)',
     'explanation': 'Path enumeration with partial evaluation of the loading functions (is_cold literal vs pushed entry), undo-table extraction shared with C06, guard extraction for fork gates, dominance for ordering.',
 }
